@@ -31,6 +31,11 @@ theorem resyncLoop_some (fin : List KV × Nat) (hfin : fin.2 ≠ 0) :
     intro wc full lists watches hlen
     unfold resyncLoop
     simp only
+    by_cases hstop : ((full || decide (wc.rev = 0)) && (lists.headD (ListOut.ok fin.1 fin.2)).isPollStop) = true
+    · simp only [hstop, if_true, Option.isSome_some]
+    have hstop' : ((full || decide (wc.rev = 0)) && (lists.headD (ListOut.ok fin.1 fin.2)).isPollStop) = false := by
+      simpa using hstop
+    simp only [hstop', Bool.false_eq_true, if_false]
     -- the watch part, common to both branches
     have watchPart : ∀ (w : WC) (f : Bool) (ls : List ListOut), ls.length ≤ lists.length →
         (if (watchStep w f (watches.headD WatchOut.ok)).2.2 = true then
@@ -140,6 +145,10 @@ theorem listStep_mode (wc : WC) (lo : ListOut) : (listStep wc lo).1.proc = wc.pr
     simp only [WC.onListNotFound]
     show wc.beginFull.notifyConverter.finishResync.proc = _
     rw [finishResync_mode, notifyConverter_proc, beginFull_mode]
+  | pollStop =>
+    simp only
+    show (wc.beginFull.notifyConverter.processList []).proc = _
+    rw [processList_mode, notifyConverter_proc, beginFull_mode]
   | expired => simp only [WC.onListExpired]; exact beginFull_mode wc
   | other e =>
     simp only [WC.onListOther]
@@ -178,6 +187,7 @@ theorem listStep_listed {m0 : View} {st0 : Nat} {wc : WC} (h : Good m0 st0 wc) (
   | notFound => simp [listStep] at hgo
   | expired => simp [listStep] at hgo
   | other e => simp [listStep] at hgo
+  | pollStop => simp [listStep] at hgo
   | ok kvs lrev =>
     refine ⟨kvs, lrev, rfl, ?_, ?_⟩
     · have l := processList_ok (notifyConverter_good (beginFull_good h)) kvs
@@ -197,5 +207,22 @@ theorem listStep_listed {m0 : View} {st0 : Nat} {wc : WC} (h : Good m0 st0 wc) (
       unfold listStep
       simp only
       split <;> rfl
+
+/-- The terminal polling List leaves the cache empty (conversion of the empty list) with a fresh processor state. -/
+theorem listStep_pollStop_view {m0 : View} {st0 : Nat} {wc : WC} (h : Good m0 st0 wc) :
+    (∀ k, view (listStep wc .pollStop).1 k = (convSeq wc.proc [] []).foldl applyKV emptyView k) ∧
+      (listStep wc .pollStop).1.pst = convState wc.proc [] [] := by
+  have l := processList_ok (notifyConverter_good (beginFull_good h)) []
+  constructor
+  · intro k
+    have lv := l.view k
+    rw [notifyConverter_proc, notifyConverter_pst, beginFull_mode] at lv
+    rw [← lv]
+    unfold listStep
+    simp [view, oldLookup]
+  · have lp := l.pst
+    rw [notifyConverter_proc, notifyConverter_pst, beginFull_mode] at lp
+    rw [← lp]
+    rfl
 
 end CalicoVerif.C26
